@@ -188,7 +188,8 @@ func written(v AV, esc int) string {
 	case "ap":
 		val := concretise(v).(*pongo2.Value)
 		s = val.String()
-		isStr = val.IsString()
+		_, isStringer := val.Interface().(fmt.Stringer)
+		isStr = val.IsString() || isStringer // (a filter that hands its input back hands back the Stringer)
 	case "list", "map":
 		// composite values have no canonical printed form in the specification; their Go rendering is taken as is
 		s = pongo2.AsValue(concretise(v)).String()
@@ -824,7 +825,7 @@ func rawMarker(out string) string {
 func cmdC02Replay(args []string) {
 	rep := newReport("c02-replay")
 	seen := map[string]bool{}
-	diag := 0
+	diag, diagOther := 0, 0
 	readVectors(func(raw json.RawMessage) {
 		var v renderVector
 		if err := json.Unmarshal(raw, &v); err != nil {
@@ -845,6 +846,9 @@ func cmdC02Replay(args []string) {
 		}
 		if problem != "" && !strings.HasPrefix(problem, "SKIP") {
 			diag++
+			if !strings.Contains(src, "{% for c") { // (iterating over the characters of a marker: the model's marker is one atom)
+				diagOther++
+			}
 		}
 		if rep.Checked%2999 == 1 {
 			rep.sample(map[string]interface{}{"template": src, "output": got.Out, "specification": want})
@@ -852,6 +856,7 @@ func cmdC02Replay(args []string) {
 	})
 	rep.Distinct = len(seen)
 	rep.Extra["exact_output_differences_not_reported_here"] = diag
+	rep.Extra["exact_output_differences_outside_character_loops"] = diagOther
 	rep.emit()
 }
 
